@@ -26,9 +26,9 @@ PROPS = {
     "C05": dict(
         level="other",
         explanation="Inductive step: RegisterPipeline / RegisterNode / RemoveNode / RemovePipelineAndNodes / IsAnyPipelineRegistered executed symbolically from an arbitrary broker state under the representation invariant (K symbolic node ids, symbolic types/policies/counts, target pipeline + one other pipeline explicit, the rest as ghost counts); spec predicate written independently in the harness; err==nil <=> spec and frame conditions discharged by z3.",
-        jobs=[dict(harness=BROKER_H, entries=r"^H_C05_", params=dict(quick=dict(K=2, L=2, H=2), thorough=dict(K=3, L=3, H=3)),
-                   shards=dict(quick=1, thorough=16, H_C05_RegisterPipeline=16, H_C05_isany_after_history=16, H_C05_history_vs_model=16))],
-        must_reach=["C05.register.ok", "C05.register.fail", "C05.isany.end", "C05.registernode.fail", "C05.removenode.fail", "C05.rpan.false", "C05.isany.history", "C05.history.end"],
+        jobs=[dict(harness=BROKER_H, entries=r"^H_C05_|^H_C07_pipeline_other_type$", params=dict(quick=dict(K=2, L=2, H=2, N=6), thorough=dict(K=3, L=3, H=3, N=6)),
+                   shards=dict(quick=1, thorough=16, H_C05_RegisterPipeline=16, H_C05_isany_after_history=16, H_C05_history_vs_model=16, H_C07_pipeline_other_type=8))],
+        must_reach=["C05.register.ok", "C05.register.fail", "C05.isany.end", "C05.registernode.fail", "C05.removenode.fail", "C05.rpan.false", "C05.isany.history", "C05.history.end", "C05.shapes.accepted", "C05.shapes.end"],
         bounds=dict(quick="K=2 node ids, definition length 0..2, existing pipeline length 2, one other pipeline; any number of pipelines of other types (ghost); histories: 2 operations (12 kinds x policy) from 72 API-built pre-states over ids {f,s,s2} x pipelines {p,q}",
                     thorough="K=3 node ids, definition length 0..3, existing pipeline length 2..3; histories of 3 operations"),
         trusted_base=COMMON_TRUST,
@@ -40,7 +40,7 @@ PROPS = {
                    shards=dict(quick=4, thorough=16, H_C06_RegisterPipeline=16)),
               # all histories of H operations from API-built states against the reference model (closes / in-use / deliveries)
               dict(harness=BROKER_H, entries=r"^H_C05_history_vs_model$", params=dict(quick=dict(H=2), thorough=dict(H=3)), shards=dict(quick=16, thorough=16))],
-        must_reach=["C05.history.end", "C06.base", "C06.registerpipeline.ok", "C06.removepipeline.target", "C06.rpan.true", "C06.removenode.end", "C06.registernode.end"],
+        must_reach=["C05.history.end", "C06.close-target.end", "C06.base", "C06.registerpipeline.ok", "C06.removepipeline.target", "C06.rpan.true", "C06.removenode.end", "C06.registernode.end"],
         bounds=dict(quick="K=2 node ids, pipelines/definitions up to 3 nodes", thorough="K=3 node ids, up to 4 nodes"),
         trusted_base=COMMON_TRUST,
     ),
@@ -70,7 +70,7 @@ PROPS = {
                    overrides=["(*github.com/hashicorp/eventlogger.graph).process=verifStubProcess"]),
               dict(harness=BROKER_H, entries=r"^H_C01_linkNodes$", params=dict(quick=dict(LL=5), thorough=dict(LL=5))),
               # which node objects a registered pipeline traverses: the list RegisterPipeline builds from any registry (inductive step)
-              dict(harness=BROKER_H, entries=r"^H_C05_RegisterPipeline$", params=dict(quick=dict(K=2, L=2), thorough=dict(K=3, L=3)), shards=dict(quick=16, thorough=16)),
+              dict(harness=BROKER_H, entries=r"^H_C05_RegisterPipeline$|^H_C07_pipeline_other_type$", params=dict(quick=dict(K=2, L=2), thorough=dict(K=3, L=3)), shards=dict(quick=16, thorough=16, H_C07_pipeline_other_type=8)),
               dict(harness=BROKER_H, entries=r"^H_C01_process_seq$", params=dict(quick=dict(P=2, N=2), thorough=dict(P=3, N=3)), shards=dict(quick=4, thorough=16))],
         must_reach=["C01.send.known", "C01.send.unknown", "C01.link.ok", "C01.process.end", "C05.register.ok"],
         bounds=dict(quick="P<=2 pipelines x 2 nodes; list length<=5", thorough="P<=3 x 2..3 nodes"),
